@@ -195,5 +195,5 @@ def _worker(ctx, arg):
 
 
 def run(ctx):
-    per = 300 if ctx.tier == "quick" else 2500
+    per = 300 if ctx.tier == "quick" else 7500
     ctx.parallel(_worker, [(k, per) for k in range(core.NPROC)])
